@@ -6,6 +6,7 @@ HOOK_COMMITS = ["afa3aa0"]
 # property -> (Lean module, [theorems that decide it]); audited with `#print axioms` on every run
 THEOREMS = {
     "C06": ("TrVerif.Props.C06", ["Tr.C06_totals"]),
+    "C13": ("TrVerif.Props.C13", ["Tr.C13_history_independent", "Tr.C13_cache_kind_irrelevant", "Tr.C13_structure"]),
     "C19": ("TrVerif.Props.C19", ["Tr.C19_summary", "Tr.C19_handlers_mirror"]),
 }
 
